@@ -217,16 +217,35 @@ def check_whole_axis(ctx, fi, rule='R-TILE/whole-axis'):
     rd = rd_of(fi)
     ex = Expander(fi)
     n = 0
-    for loop in ast.walk(fi.node):
-        if not (isinstance(loop, ast.For) and isinstance(
+    class _Loop(object):
+        pass
+    loops = []
+    for lp in ast.walk(fi.node):
+        if isinstance(lp, ast.For):
+            o = _Loop()
+            o.target, o.iter, o.body, o.node = lp.target, lp.iter, lp.body, lp
+            o.hdr = [x for x in cfg.nodes_of(lp) if x.kind == 'for'
+                     and x.id in rd.live]
+            loops.append(o)
+        elif isinstance(lp, (ast.ListComp, ast.GeneratorExp, ast.SetComp,
+                             ast.DictComp)) and len(lp.generators) == 1:
+            # the same loop written as a comprehension
+            o = _Loop()
+            g = lp.generators[0]
+            o.target, o.iter, o.node = g.target, g.iter, lp
+            o.body = [lp.key, lp.value] if isinstance(lp, ast.DictComp) \
+                else [lp.elt]
+            o.hdr = [x for x in cfg.node_of_expr(lp) if x.id in rd.live]
+            loops.append(o)
+    for loop in loops:
+        if not (isinstance(
                 loop.target, ast.Name) and isinstance(
                     loop.iter, ast.Call) and isinstance(
                         loop.iter.func, ast.Name)
                 and loop.iter.func.id == 'range'
                 and len(loop.iter.args) == 1):
             continue
-        hdr = [x for x in cfg.nodes_of(loop) if x.kind == 'for'
-               and x.id in rd.live]
+        hdr = loop.hdr
         if not hdr:
             continue
         t = ex.expand(loop.iter.args[0], hdr[0].id)
@@ -276,7 +295,7 @@ def check_whole_axis(ctx, fi, rule='R-TILE/whole-axis'):
         # as a slice bound
         v = loop.target.id
         uses = False
-        for st in ast.walk(loop):
+        for st in (y for b_ in loop.body for y in ast.walk(b_)):
             if isinstance(st, ast.BinOp) and isinstance(st.op, ast.Mult) \
                     and any(isinstance(x, ast.Name) and x.id == v
                             for x in (st.left, st.right)):
@@ -285,7 +304,7 @@ def check_whole_axis(ctx, fi, rule='R-TILE/whole-axis'):
             continue
         n += 1
         ctx.touch(fi)
-        ctx.fail(rule, f'{fi.qual}:range#{n - 1}', fi.loc(loop),
+        ctx.fail(rule, f'{fi.qual}:range#{n - 1}', fi.loc(loop.node),
                  f'`{unparse(loop.iter)[:60]}` counts only the whole '
                  f'windows ({fmt_term(t)[:60]}): when the length is not a '
                  'multiple of the window the remainder is never visited')
